@@ -189,8 +189,26 @@ func runC19(c *Ctx) {
 		ps := g.ParamExprs(rr)
 		var hit Ref = False
 		var cached *E
+		cOwner, cField, _ := ruleCacheField(c.P)
+		// the cache of this storage: the map field, reached from the receiver
+		ofRecv := func(m *E) bool {
+			if m.Op != "field" || m.Aux != cField {
+				return false
+			}
+			for x := m.Args[0]; x != nil; {
+				if x == ps[0] {
+					return true
+				}
+				if (x.Op == "field" || x.Op == "load") && len(x.Args) > 0 {
+					x = x.Args[0]
+					continue
+				}
+				break
+			}
+			return false
+		}
 		for _, at := range u.atoms {
-			if at.Op == "extract" && at.Aux == "1" && at.Args[0].Op == "lookup" && at.Args[0].Args[0].Op == "field" && at.Args[0].Args[0].Aux == "cache" && at.Args[0].Args[1] == ps[1] {
+			if at.Op == "extract" && at.Aux == "1" && at.Args[0].Op == "lookup" && ofRecv(at.Args[0].Args[0]) && at.Args[0].Args[1] == ps[1] {
 				hit = u.Atom(at)
 				cached = u.mk("extract", "0", nil, at.Args[0])
 			}
@@ -220,17 +238,29 @@ func runC19(c *Ctx) {
 		// insert: cache[storageIdx] = retrieved rule, under non-nil
 		okIns := false
 		for _, ef := range s.Effects {
-			if ef.Kind == "mapupdate" && ef.Addr.Op == "field" && ef.Addr.Aux == "cache" && ef.Key == ps[1] {
+			if ef.Kind == "mapupdate" && ofRecv(ef.Addr) && ef.Key == ps[1] {
 				okIns = ef.Val.Op == "extract" && ef.Val.Aux == "0" && ef.Val.Args[0].Op == "invoke"
 			}
 		}
 		c.Check(okIns, "C19.R4", "RuleStorage.RetrieveRule: retrieved rule cached under its own index", rr.Pos(), "cache[storageIdx] = rule returned by the list", "the cache insert does not store the retrieved rule under the requested index")
 		// who may write the cache
 		bad = ""
-		for _, w := range fieldWrites(c.P, "filterlist", "RuleStorage", "cache") {
+		ctor := c.P.Func("filterlist", "NewRuleStorage")
+		cacheWrites := fieldWrites(c.P, "filterlist", cOwner, cField)
+		if cOwner != "RuleStorage" {
+			// the cache lives in a type of its own: the storage's reference to it is part of the cache
+			if st, ok := c.P.Type("filterlist", "RuleStorage").Underlying().(*types.Struct); ok {
+				for i := 0; i < st.NumFields(); i++ {
+					if strings.HasSuffix(typeStr(st.Field(i).Type()), "filterlist."+cOwner) || strings.HasSuffix(typeStr(st.Field(i).Type()), "."+cOwner) || typeStr(st.Field(i).Type()) == "*"+cOwner {
+						cacheWrites = append(cacheWrites, fieldWrites(c.P, "filterlist", "RuleStorage", st.Field(i).Name())...)
+					}
+				}
+			}
+		}
+		for _, w := range cacheWrites {
 			switch {
 			case w.Kind == "mapupdate" && inGroupOf(c.P, w.Fn, rr):
-			case w.Kind == "store" && w.Fn.Name() == "NewRuleStorage":
+			case w.Kind == "store" && (w.Fn.Name() == "NewRuleStorage" || (ctor != nil && inGroupOf(c.P, w.Fn, ctor))):
 			default:
 				bad = fmt.Sprintf("%s: %s writes the rule cache (%s): rules retrieved before a fault are no longer served", c.P.Pos(w.Instr.Pos()), shortFn(w.Fn), w.Kind)
 			}
@@ -241,7 +271,7 @@ func runC19(c *Ctx) {
 				if cl, ok := in.(*ssa.Call); ok {
 					if b, ok := cl.Call.Value.(*ssa.Builtin); ok && (b.Name() == "delete" || b.Name() == "clear") {
 						if ld, ok := cl.Call.Args[0].(*ssa.UnOp); ok {
-							if n, f, ok := fieldOf(ld.X); ok && f == "cache" && namedIs(n, "filterlist", "RuleStorage") {
+							if n, f, ok := fieldOf(ld.X); ok && f == cField && namedIs(n, "filterlist", cOwner) {
 								bad = c.P.Pos(cl.Pos()) + ": " + b.Name() + " on the rule cache"
 							}
 						}
